@@ -272,8 +272,8 @@ Proof.
 Qed.
 
 Definition add_holder (o : own) (n : name) : own := mkOwn ((n, KHandle) :: o_holders o) (o_ents o).
-Ltac psimpl := cbn [d_log d_vals d_next d_made d_dropped d_defaults o_holders o_ents add_holder note_made note_dropped
-                    set_val emit fst snd names map] in *.
+Ltac psimpl := cbn [d_log d_vals d_next d_made d_dropped d_defaults d_disp o_holders o_ents add_holder note_made note_dropped
+                    set_val emit with_defaults with_disp fst snd names map] in *.
 
 Lemma no_ents_on_dead : forall o d n, Inv o d -> ~ In n (names (o_holders o)) ->
   forall e, In e (o_ents o) -> e_holder e <> n.
@@ -454,7 +454,7 @@ Lemma inv_make : forall o d n c t po, Inv o d -> ~ In n (names (o_holders o)) ->
   let i := d_next d in
   let d1 := emit d (ECall c t (CNew i po)) in
   Inv (add_holder o n)
-      (set_val (mkDyn (d_vals d1) (d_defaults d1) (i + 1) (d_log d1) ((i, c) :: d_made d1) (d_dropped d1)) n (SSpan i c)).
+      (set_val (mkDyn (d_vals d1) (d_defaults d1) (i + 1) (d_log d1) ((i, c) :: d_made d1) (d_dropped d1) (d_disp d1)) n (SSpan i c)).
 Proof.
   intros o d n c t po I Hn i d1. pose proof (no_ents_on_dead _ _ _ I Hn) as Hne. subst d1.
   assert (Hz : forall c', cnt TNew (i, c') (d_log d) = 0%nat).
@@ -496,15 +496,31 @@ Proof.
   apply inv_upd_clone; auto. eapply current_live; eassumption.
 Qed.
 
-Lemma inv_defaults : forall o d x, Inv o d ->
-  Inv o (mkDyn (d_vals d) x (d_next d) (d_log d) (d_made d) (d_dropped d)).
+Lemma inv_defaults : forall o d x, Inv o d -> Inv o (with_defaults d x).
 Proof. intros o d x I; destruct I; constructor; auto. Qed.
+Lemma inv_disp : forall o d x, Inv o d -> Inv o (with_disp d x).
+Proof. intros o d x I; destruct I; constructor; auto. Qed.
+
+(** two unborrowed holders exchange their Span values (mem::swap through Instrumented::span_mut) *)
+Lemma inv_swap : forall o d a b, Inv o d -> free o a = true -> free o b = true -> a <> b ->
+  Inv o (set_val (set_val d a (val_of d b)) b (val_of d a)).
+Proof.
+  intros o d a b I Ha Hb Hab. destruct (free_spec _ _ Ha) as [Hina Hnea]. destruct (free_spec _ _ Hb) as [Hinb Hneb].
+  rewrite !val_of_vlook. destruct I.
+  assert (Hh : forall v, hcnt (o_holders o) ((b, vlook (d_vals d) a) :: (a, vlook (d_vals d) b) :: d_vals d) v
+                         = hcnt (o_holders o) (d_vals d) v).
+  { intros v.
+    pose proof (hcnt_set_in (o_holders o) (d_vals d) a (vlook (d_vals d) b) v inv_nodup0 Hina) as H1.
+    pose proof (hcnt_set_in (o_holders o) ((a, vlook (d_vals d) b) :: d_vals d) b (vlook (d_vals d) a) v inv_nodup0 Hinb) as H2.
+    rewrite vlook_cons in H2. destruct (a =? b) eqn:E; [apply N.eqb_eq in E; congruence|]. lia. }
+  constructor; psimpl; intros; rewrite ?Hh, ?ecnt_set_noents in * by assumption; auto.
+Qed.
 
 Lemma micro_preserves : forall m o d o', Inv o d -> mo m o = Some o' -> Inv o' (md m d).
 Proof.
   intros m o d o' I Hm. destruct m; cbn [mo] in Hm.
   - (* MNewSpan *)
-    destruct (negb (live o n) && match p with PExp r => live o r | _ => true end) eqn:E; [|discriminate].
+    destruct (negb (live o n) && match parent_ref p with Some r => live o r | None => true end) eqn:E; [|discriminate].
     inversion Hm; subst o'; clear Hm. apply andb_true_iff in E. destruct E as [E _].
     apply negb_true_iff, live_notIn in E. cbn [md].
     destruct (negb match h with ViaMacro en => en && negb (cur_default d t =? 0) | Direct => true end);
@@ -553,6 +569,14 @@ Proof.
     inversion Hm; subst o'; clear Hm. cbn [md]. apply inv_emit_neutral; [assumption | exact Logic.I | exact Logic.I].
   - inversion Hm; subst o'; clear Hm. cbn [md]. apply inv_defaults; assumption.
   - inversion Hm; subst o'; clear Hm. cbn [md]. apply inv_defaults; assumption.
+  - (* MSetDisp *)
+    destruct (live o f); [|discriminate]. inversion Hm; subst o'; clear Hm. cbn [md]. apply inv_disp; assumption.
+  - inversion Hm; subst o'; clear Hm. cbn [md]. apply inv_defaults; assumption.
+  - inversion Hm; subst o'; clear Hm. cbn [md]. apply inv_disp; assumption.
+  - (* MSwap *)
+    destruct (free o a && free o b && negb (a =? b)) eqn:E; [|discriminate]. inversion Hm; subst o'; clear Hm.
+    apply andb_true_iff in E. destruct E as [E E3]. apply andb_true_iff in E. destruct E as [E1 E2].
+    apply negb_true_iff, N.eqb_neq in E3. cbn [md]. cbv zeta. apply inv_swap; assumption.
 Qed.
 
 Lemma inv_init : Inv o_init d_init.
@@ -753,7 +777,7 @@ Definition msubject (m : micro) : option name :=
   | _ => None
   end.
 Definition mquiet_kind (m : micro) : bool :=
-  match m with MNewSpan _ _ _ _ | MCurrentTo _ _ | MOrCurrent _ _ => false | _ => true end.
+  match m with MNewSpan _ _ _ _ | MCurrentTo _ _ | MOrCurrent _ _ | MSwap _ _ => false | _ => true end.
 
 Lemma md_quiet : forall m d, mquiet_kind m = true ->
   match msubject m with Some r => unlogged (val_of d r) = true | None => True end ->
@@ -770,6 +794,9 @@ Proof.
   - destruct (val_of d r); try discriminate Hs; split; auto using quiet_refl.
   - destruct (val_of d r); try discriminate Hs; split; auto using quiet_refl.
   - split; [exists [EMark t m]; split; reflexivity | reflexivity].
+  - split; [apply quiet_refl | reflexivity].
+  - split; [apply quiet_refl | reflexivity].
+  - split; [apply quiet_refl | reflexivity].
   - split; [apply quiet_refl | reflexivity].
   - split; [apply quiet_refl | reflexivity].
 Qed.
@@ -806,16 +833,30 @@ Theorem disabled_silent_step : forall s x s', step s x = Some s' -> on_unlogged 
 Proof.
   intros [o d] [t a] s' H Hu. unfold step in H. cbn [fst snd] in *. unfold on_unlogged in Hu. cbn [fst snd] in Hu.
   destruct a; try discriminate Hu; cbn [compile] in H; try (qfin H; fail).
-  (* Clone *)
-  destruct (readable o r && negb (live o n)); [|discriminate]. simpl in H.
-  destruct (live o r && negb (live o n)); [|discriminate]. inversion H; subst; clear H. cbn [snd md].
-  destruct (val_of d r); try discriminate Hu; apply quiet_refl.
+  - (* Clone *)
+    destruct (readable o r && negb (live o n)); [|discriminate]. simpl in H.
+    destruct (live o r && negb (live o n)); [|discriminate]. inversion H; subst; clear H. cbn [snd md].
+    destruct (val_of d r); try discriminate Hu; apply quiet_refl.
+  - (* Record chain *)
+    destruct (readable o r); [|discriminate]. apply exec_quiet in H; auto. cbn [snd].
+    apply Forall_forall. intros m Hm. apply in_map_iff in Hm. destruct Hm as [b [<- _]].
+    unfold mcond; cbn [mquiet_kind msubject]; repeat split; auto.
+  - (* SpanMutSwap *)
+    destruct (is_anyfut o f && free o f && is_handle o n && free o n); [|discriminate]. simpl in H.
+    destruct (free o f && free o n && negb (f =? n)); [|discriminate]. inversion H; subst; clear H. apply quiet_refl.
+  - (* CloneFut *)
+    assert (Hq : forall k, exec [MCloneTo f n t; MSetKind n k; MCopyDisp f n] (o, d) = Some s' -> quiet (d_log d) (d_log (snd s'))).
+    { intros k Hk. simpl in Hk; repeat (break_match_hyp Hk; simpl in Hk); inversion Hk; subst; clear Hk;
+        cbn [snd md with_disp set_val emit note_made d_log]; try discriminate Hu; try apply quiet_refl.
+      all: destruct (val_of d f); try discriminate Hu; apply quiet_refl. }
+    destruct (kind_of o f) as [[| |b]|]; try discriminate H;
+      (destruct (readable o f && negb (live o n)); [|discriminate]); eapply Hq; exact H.
 Qed.
 
 Lemma find_some_prop : forall {A} (f : A -> bool) l x, find f l = Some x -> f x = true.
 Proof. intros A f l x H. apply find_some in H. tauto. Qed.
 
-Theorem instrumented_step : forall s t f s', is_fut (fst s) f = true ->
+Theorem instrumented_step : forall s t f s', is_anyfut (fst s) f = true ->
   let v := val_of (snd s) f in
   (step s (t, PollBegin f) = Some s' ->
      d_log (snd s') = EMark t (MBody f) :: enter_entries v t ++ d_log (snd s)) /\
@@ -825,13 +866,107 @@ Theorem instrumented_step : forall s t f s', is_fut (fst s) f = true ->
      d_log (snd s') = EMark t (MInnerDrop f) :: close_entries v t ++ d_log (snd s)).
 Proof.
   intros [o d] t f s' Hf v. subst v. cbn [fst snd] in *. unfold step. cbn [fst snd compile].
-  unfold is_fut in Hf. destruct (kind_of o f) as [[|]|] eqn:Ek; try discriminate Hf.
-  unfold is_fut. rewrite Ek. unfold val_of.
-  destruct (lookup (d_vals d) f) as [[| |i c]|] eqn:El;
+  unfold is_anyfut in Hf. destruct (kind_of o f) as [[| |b]|] eqn:Ek; try discriminate Hf; try destruct b;
+  unfold is_anyfut; rewrite ?Ek; unfold val_of;
+  (destruct (lookup (d_vals d) f) as [[| |i c]|] eqn:El;
     (repeat split; intros H; simpl in H; unfold val_of in H; simpl in H; rewrite ?El in H;
      repeat (break_match_hyp H; simpl in H; unfold val_of in H; simpl in H; rewrite ?El in H);
-     inversion H; subst; clear H; simpl; reflexivity).
+     inversion H; subst; clear H; simpl; reflexivity)).
 Qed.
+
+(** polling a WithDispatch-wrapped future: the wrapper's Dispatch is the thread's default while the body runs, the span
+    is nevertheless entered / exited at its own collector, and the previous default is back afterwards *)
+Lemma ent_eqb_refl : forall e, ent_eqb e e = true.
+Proof. intros [k h t]. unfold ent_eqb; simpl. rewrite !N.eqb_refl, !andb_true_r. destruct k; simpl; auto using N.eqb_refl. Qed.
+Lemma mem_ent_head : forall e es, mem_ent e (e :: es) = true.
+Proof. intros; unfold mem_ent; simpl. rewrite ent_eqb_refl. reflexivity. Qed.
+Lemma remove_ent_head : forall e es, remove_ent e (e :: es) = es.
+Proof. intros; simpl. rewrite ent_eqb_refl. reflexivity. Qed.
+Lemma cur_default_push_pop : forall d t c x,
+  cur_default (with_defaults d (remove_name t ((t, c) :: x))) t = cur_default (with_defaults d x) t.
+Proof. intros. unfold cur_default, with_defaults; simpl. rewrite N.eqb_refl. reflexivity. Qed.
+
+Theorem with_dispatch_step : forall s t f b s', kind_of (fst s) f = Some (KFutW b) ->
+  step s (t, PollBegin f) = Some s' ->
+  d_log (snd s') = EMark t (MBody f) :: enter_entries (val_of (snd s) f) t ++ d_log (snd s) /\
+  cur_default (snd s') t = disp_of (snd s) f /\
+  kind_of (fst s') f = Some (KFutW b) /\
+  forall r s'', step s' (t, PollEnd r) = Some s'' ->
+    d_log (snd s'') = exit_entries (val_of (snd s) f) t ++ d_log (snd s') /\
+    cur_default (snd s'') t = cur_default (snd s) t.
+Proof.
+  intros [o d] t f b s' Hk H. unfold step in H. cbn [fst snd compile] in *. rewrite Hk in H.
+  destruct (free o f) eqn:Hfree; [|discriminate].
+  assert (Hlive : live o f = true) by (unfold free in Hfree; apply andb_true_iff in Hfree; tauto).
+  assert (Htop : forall es, top_frame (mkOwn (o_holders o) (mkEnt EPoll f t :: es)) t = Some (mkEnt EPoll f t)).
+  { intros es. unfold top_frame. simpl. unfold is_control. simpl. rewrite N.eqb_refl. reflexivity. }
+  assert (Hk' : forall es, kind_of (mkOwn (o_holders o) es) f = Some (KFutW b)) by (intros; exact Hk).
+  destruct b; cbn [exec mo md fst snd e_holder] in H; rewrite ?Hlive in H; cbn [exec mo md fst snd e_holder] in H;
+    inversion H; subst s'; clear H; cbn [fst snd];
+    (split; [|split; [|split; [apply Hk'|]]]);
+    try (intros r s'' H2; unfold step in H2; cbn [fst snd compile] in H2; rewrite Htop in H2; cbn [e_kind e_holder] in H2;
+         rewrite Hk' in H2; cbn [exec mo md fst snd e_holder o_ents o_holders] in H2; rewrite ?mem_ent_head in H2;
+         cbn [exec mo md fst snd e_holder o_ents o_holders] in H2; rewrite ?mem_ent_head in H2;
+         cbn [exec mo md fst snd e_holder o_ents o_holders] in H2; inversion H2; subst s''; clear H2; cbn [fst snd]);
+    unfold val_of, cur_default, disp_of; simpl;
+    destruct (lookup (d_vals d) f) as [[| |i c]|] eqn:El; simpl; rewrite ?El; simpl;
+    rewrite ?N.eqb_refl; try split; try reflexivity.
+Qed.
+
+(** the pure accessors, follows_from(None) and the inner-future accessors of Instrumented call no collector; swapping the
+    span of a future through span_mut calls nothing and exchanges the two values *)
+Theorem accessors_silent : forall s t s',
+  (forall r q, step s (t, Query r q) = Some s' -> s' = s) /\
+  (forall r, step s (t, FollowsFrom r FNone) = Some s' -> s' = s) /\
+  (forall r ks, forallb negb ks = true -> step s (t, Record r ks) = Some s' -> s' = s) /\
+  (forall f k, step s (t, InnerAccess f k) = Some s' -> d_log (snd s') = EMark t (MInnerTouch f) :: d_log (snd s)) /\
+  (forall f n, step s (t, SpanMutSwap f n) = Some s' ->
+     d_log (snd s') = d_log (snd s) /\ val_of (snd s') f = val_of (snd s) n /\ val_of (snd s') n = val_of (snd s) f).
+Proof.
+  intros [o d] t s'. unfold step. cbn [fst snd compile]. repeat split.
+  - intros r q H. destruct (readable o r); inversion H; reflexivity.
+  - intros r H. destruct (readable o r); inversion H; reflexivity.
+  - intros r ks Hk H. destruct (readable o r); [|discriminate].
+    assert (E : filter (fun b : bool => b) ks = []).
+    { clear H. induction ks as [|b ks]; [reflexivity|]. simpl in Hk. apply andb_true_iff in Hk. destruct Hk as [Hb Hk].
+      destruct b; [discriminate|]. simpl. auto. }
+    rewrite E in H. inversion H; reflexivity.
+  - intros f k H. destruct (is_anyfut o f && (if N.even k then readable o f else free o f)); [|discriminate].
+    inversion H; reflexivity.
+  - destruct (is_anyfut o f && free o f && is_handle o n && free o n); [|discriminate]. simpl in H.
+    destruct (free o f && free o n && negb (f =? n)); [|discriminate]. inversion H; reflexivity.
+  - destruct (is_anyfut o f && free o f && is_handle o n && free o n); [|discriminate]. simpl in H.
+    destruct (free o f && free o n && negb (f =? n)) eqn:E; [|discriminate]. inversion H; subst; clear H.
+    apply andb_true_iff in E. destruct E as [_ E]. apply negb_true_iff in E.
+    unfold val_of; simpl. rewrite N.eqb_sym, E. rewrite N.eqb_refl. reflexivity.
+  - destruct (is_anyfut o f && free o f && is_handle o n && free o n); [|discriminate]. simpl in H.
+    destruct (free o f && free o n && negb (f =? n)) eqn:E; [|discriminate]. inversion H; subst; clear H.
+    unfold val_of; simpl. rewrite N.eqb_refl. reflexivity.
+Qed.
+
+Definition p_demo2 : prog :=
+  [ (0, SetDefault 1); (0, New 0 Direct PNoneId); (0, New 1 (ViaMacro true) (PExpId 0)); (0, Clone 0 2);
+    (0, Query 0 2); (0, Record 1 [true; false; true]); (0, FollowsFrom 1 (FId 0)); (0, FollowsFrom 1 FNone);
+    (0, Instrument 2 false (WWith 2));                (* Instrumented<WithDispatch<_>>, a foreign collector inside *)
+    (1, PollBegin 2); (1, Current 3); (1, New 4 Direct PCtx); (1, PollEnd Ready);
+    (0, Instrument 1 true WNone); (0, WithCollector 1 None);   (* WithDispatch<Instrumented<_>>, capturing collector 1 *)
+    (1, SetDefault 2); (1, PollBegin 1); (1, Current 5); (1, PollEnd Pending);
+    (0, InnerAccess 1 1); (0, CloneFut 1 6); (0, SpanMutSwap 6 0); (1, Entered 5);
+    (0, IntoInner 6); (0, Drop 1); (0, Drop 2); (0, Drop 0); (1, Drop 3); (1, Drop 4); (1, Drop 5) ].
+Example demo2_wf : WFprog p_demo2.
+Proof. vm_compute. reflexivity. Qed.
+Example demo2_trace :
+  length (trace p_demo2) = 31%nat /\
+  (* the span created inside the poll of Instrumented<WithDispatch(2)<_>> belongs to collector 2, while the instrumenting
+     span (1, collector 1) is entered and exited at collector 1 on the polling thread *)
+  cnt TNew (3, 2) (trace p_demo2) = 1%nat /\ cnt_at TEnter (1, 1) 1 (trace p_demo2) = 1%nat /\
+  cnt_at TExit (1, 1) 1 (trace p_demo2) = 1%nat /\
+  (* Span::current inside WithDispatch(1)<Instrumented<_>> polled under default 2 sees span 2 of collector 1 *)
+  cnt TClone (2, 1) (trace p_demo2) = 2%nat /\ cnt TClose (2, 1) (trace p_demo2) = 3%nat /\
+  cnt TRecord (2, 1) (trace p_demo2) = 2%nat /\ cnt TFollows (2, 1) (trace p_demo2) = 1%nat.
+Proof. vm_compute. repeat split; reflexivity. Qed.
+
+
 
 Theorem instrumented_poll_end : forall s t r s', step s (t, PollEnd r) = Some s' ->
   exists e, top_frame (fst s) t = Some e /\ e_kind e = EPoll /\ e_tid e = t /\
@@ -884,7 +1019,7 @@ Definition p_demo : prog :=
   [ (0, SetDefault 1); (0, New 0 (ViaMacro true) PCtx); (0, Clone 0 1); (1, SetDefault 2);
     (1, Enter 0 0); (1, Enter 1 1); (1, DropGuard 0);            (* out of order, under a foreign default *)
     (0, Entered 0); (0, Current 2); (1, DropGuard 1);
-    (0, Instrument 1 false); (1, PollBegin 1); (1, PollEnd Pending); (0, Drop 1);   (* dropped between polls *)
+    (0, Instrument 1 false WNone); (1, PollBegin 1); (1, PollEnd Pending); (0, Drop 1);   (* dropped between polls *)
     (0, New 3 (ViaMacro false) PRoot); (0, Enter 3 7); (0, DropGuard 7); (0, Drop 3); (* a disabled span *)
     (0, Drop 0); (1, Drop 2) ].
 Example demo_wf : WFprog p_demo.
